@@ -171,6 +171,8 @@ func splitVotes(r *Rng, total uint64, wrap bool) map[string]uint64 {
 		var p uint64
 		if wrap {
 			p = r.Next()
+		} else if rest == ^uint64(0) {
+			p = r.Next() // rest+1 wraps to 0
 		} else if rest > 0 {
 			p = r.Next() % (rest + 1)
 		}
